@@ -35,6 +35,7 @@ type report struct {
 	GoStatements []string `json:"go_statements_rewritten"`
 	Unshimmed    []string `json:"unshimmed_primitives"`
 	BboltHook    bool     `json:"bbolt_hook"`
+	YieldPoints  int      `json:"yield_points_inserted"`
 }
 
 func main() {
@@ -163,6 +164,28 @@ func rewrite(path string, data []byte, pkg string, rep *report) ([]byte, bool) {
 		}
 		return true
 	})
+	if yieldFile(pkg, filepath.Base(path)) {
+		n := 0
+		ast.Inspect(f, func(nd ast.Node) bool {
+			switch x := nd.(type) {
+			case *ast.FuncDecl:
+				if x.Body == nil {
+					return false
+				}
+			case *ast.BlockStmt:
+				x.List = withYields(x.List, &n)
+			case *ast.CaseClause:
+				x.Body = withYields(x.Body, &n)
+			case *ast.CommClause:
+				x.Body = withYields(x.Body, &n)
+			}
+			return true
+		})
+		if n > 0 {
+			needVsched = true
+			rep.YieldPoints += n
+		}
+	}
 	if needVsched {
 		changed = true
 		addImport(f, modPath+"/zverif/vsched")
@@ -173,6 +196,46 @@ func rewrite(path string, data []byte, pkg string, rep *report) ([]byte, bool) {
 	var buf bytes.Buffer
 	must(printer.Fprint(&buf, fset, f))
 	return buf.Bytes(), true
+}
+
+// yieldFile selects the files whose statements get a vsched.Yield() in front:
+// the backends and the shared helpers that run backend-side logic.
+func yieldFile(pkg, base string) bool {
+	switch pkg {
+	case "backend/s3mem", "backend/s3bolt", "backend/s3afero":
+		return true
+	case ".":
+		return base == "uploader.go" || base == "backend.go"
+	}
+	return false
+}
+
+func withYields(list []ast.Stmt, n *int) []ast.Stmt {
+	if len(list) == 0 {
+		return list
+	}
+	out := make([]ast.Stmt, 0, 2*len(list))
+	for _, st := range list {
+		switch st.(type) {
+		case *ast.DeclStmt, *ast.LabeledStmt, *ast.EmptyStmt, *ast.CaseClause, *ast.CommClause:
+			out = append(out, st)
+			continue
+		}
+		if es, ok := st.(*ast.ExprStmt); ok {
+			if call, ok := es.X.(*ast.CallExpr); ok {
+				if sel, ok := call.Fun.(*ast.SelectorExpr); ok {
+					if id, ok := sel.X.(*ast.Ident); ok && id.Name == "vsched" {
+						out = append(out, st)
+						continue
+					}
+				}
+			}
+		}
+		out = append(out, &ast.ExprStmt{X: &ast.CallExpr{Fun: &ast.SelectorExpr{X: ast.NewIdent("vsched"), Sel: ast.NewIdent("Yield")}}})
+		*n++
+		out = append(out, st)
+	}
+	return out
 }
 
 func rewriteGoStmts(list []ast.Stmt, fset *token.FileSet, path string, rep *report, need *bool) {
